@@ -1,6 +1,7 @@
 package main
 
 import (
+	"context"
 	"fmt"
 	"math/rand"
 	"sort"
@@ -8,6 +9,7 @@ import (
 	"time"
 
 	"berty.tech/go-orbit-db/iface"
+	cid "github.com/ipfs/go-cid"
 
 	"verifharness/fw"
 	"verifharness/sim"
@@ -17,7 +19,7 @@ func init() {
 	fw.Register(&fw.Property{
 		ID:    "C02",
 		Level: "exploration",
-		Rule: "cases = PRNG fault scripts on 2-4 replicas (all writers, on-disk directories): writes interleaved with link cuts/heals, dropped / duplicated / reordered announcements and direct-channel exchanges, peer restarts (close, reopen, Load(-1)), writes while isolated; then the final phase of the quantifier: writes stop, every link is healed and bounced so each side sees the other join, everything in flight is delivered, no more faults. Verdict by state: held when every replica holds exactly the acknowledged writes and all replicas show the same state; violated only when the world is provably at rest (pending counter 0, pool empty, replicators idle, generation and fingerprints unchanged for the confirmation window) without that. " +
+		Rule: "cases = PRNG fault scripts on 2-4 replicas (all writers, on-disk directories): writes interleaved with link cuts/heals, dropped / duplicated / reordered announcements and direct-channel exchanges, peer restarts (close, reopen, Load(-1)), writes while isolated; plus scripted fault families in their sharpest form (exchange on reconnect lost and peers re-join with unchanged heads; receiver restarts before it merged what it received; heads learnt but the partition starts before the blocks could be fetched and lasts 0 / 1 / 3 / 12 s of real time); then the final phase of the quantifier: writes stop, every link is healed and bounced so each side sees the other join, everything in flight is delivered, no more faults. Verdict by state: held when every replica holds exactly the acknowledged writes and all replicas show the same state; violated only when the world is provably at rest (pending counter 0, pool empty, replicators idle, generation and fingerprints unchanged for the confirmation window) without that. " +
 			"distinct = hash(fault script); non-trivial = >= 2 writers and >= 1 announcement lost or >= 1 cut or restart",
 		Assumptions: []string{"liveness restated as bounded progress against a state-defined rest condition", "a restart is a clean close; crashes are C05", "blocks held by a connected peer are fetchable (simulated block exchange)"},
 		Cases:       c02Cases,
@@ -55,7 +57,167 @@ func c02Cases(tier string, seed int64) []fw.Case {
 			"steps": 15 + rng.Intn(40),
 		}})
 	}
+	// scripted fault families (the quantifier's named faults, each in its sharpest form)
+	idx := len(out)
+	type fam struct {
+		name string
+		t    int // partition duration in ms (family fetch-blocked)
+	}
+	fams := []fam{{"lost-exchange-rejoin", 0}, {"lost-exchange-rejoin", 0}, {"lost-exchange-rejoin", 0}, {"receiver-restart-before-merge", 0}, {"receiver-restart-before-merge", 0}, {"fetch-blocked-by-partition", 0}, {"fetch-blocked-by-partition", 1000}, {"fetch-blocked-by-partition", 12000}}
+	reps := 1
+	if tier == "thorough" {
+		reps = 6
+	}
+	for rep := 0; rep < reps; rep++ {
+		for _, f := range fams {
+			t := f.t
+			if rep > 0 && t >= 12000 && rep%3 != 0 {
+				t = 3000
+			}
+			out = append(out, fw.Case{Idx: idx, Seed: rng.Int63(), Kind: "family", P: map[string]interface{}{
+				"family": f.name, "t": t, "type": storeTypes[idx%3], "peers": 2 + (idx/3)%2, "k": 2 + rng.Intn(5), "variant": rng.Intn(4),
+			}})
+			idx++
+		}
+	}
 	return out
+}
+
+// c02Family runs one scripted fault family followed by the final phase.
+func c02Family(c fw.Case) fw.Verdict {
+	e := NewEnv()
+	defer e.Close()
+	rng := rand.New(rand.NewSource(c.Seed))
+	famName, np, k, variant := c.Str("family", "lost-exchange-rejoin"), c.Int("peers", 2), c.Int("k", 3), c.Int("variant", 0)
+	r := &Runner{E: e, Rng: rng, Cfg: ScenCfg{Type: c.Str("type", tKV), NPeers: np, Keys: []string{"a", "b", "c"}, OnDisk: true}}
+	if err := r.Setup(); err != nil {
+		return fw.Verdict{Status: fw.Inconclusive, What: "setup: " + err.Error()}
+	}
+	w := e.W
+	A, B := r.Peers[0], r.Peers[1]
+	w.Flush()
+	steps := []Step{{K: famName}}
+	writeK := func(i int) {
+		for j := 0; j < k; j++ {
+			_ = r.Write(i, r.GenOp(rng))
+		}
+		r.settle()
+	}
+	switch famName {
+	case "lost-exchange-rejoin":
+		// B misses A's writes (partition), the exchange on reconnect is lost, then the peers re-join with unchanged heads
+		w.Cut(A, B)
+		r.Cuts++
+		writeK(0)
+		if variant%2 == 1 {
+			writeK(1) // both sides have news
+		}
+		w.Heal(A, B)
+		r.settle()
+		r.Lost += w.DropAll() // every exchange / announcement in flight is lost
+		r.logf("dropped everything in flight after the heal")
+		if variant >= 2 {
+			// a flap without traffic in between
+			w.Cut(A, B)
+			w.Heal(A, B)
+			r.settle()
+			r.Lost += w.DropAll()
+		}
+	case "receiver-restart-before-merge":
+		// B receives A's heads but restarts before it has fetched / merged them
+		w.Cut(A, B)
+		writeK(0)
+		w.Heal(A, B)
+		r.settle()
+		held := make(chan struct{})
+		w.SetGate(func(ctx context.Context, to, from *sim.Peer, _ cid.Cid) error {
+			if to != B {
+				return nil
+			}
+			select {
+			case <-held:
+			case <-ctx.Done():
+				return ctx.Err()
+			}
+			return nil
+		})
+		w.DeliverAll()
+		time.Sleep(2 * time.Millisecond)
+		B.Stop() // closes the instance while the fetch is pending
+		close(held)
+		w.SetGate(nil)
+		r.settle()
+		if err := B.Start(); err == nil {
+			if err := e.OpenOn(r.DB, B); err == nil {
+				_ = r.store(1).Load(bg, -1)
+			}
+		}
+		r.Restarts++
+		r.settle()
+		r.Lost += w.DropAll()
+	case "fetch-blocked-by-partition":
+		// B learns A's heads, but the partition starts before it could fetch the blocks and lasts T
+		writeK(0)
+		r.Lost += 0
+		held := make(chan struct{})
+		w.SetGate(func(ctx context.Context, to, from *sim.Peer, _ cid.Cid) error {
+			if to != B {
+				return nil
+			}
+			select {
+			case <-held:
+			case <-ctx.Done():
+				return ctx.Err()
+			}
+			return nil
+		})
+		w.DeliverAll()
+		time.Sleep(2 * time.Millisecond)
+		w.Cut(A, B)
+		if np > 2 {
+			w.Cut(r.Peers[2], B)
+		}
+		r.Cuts++
+		close(held)
+		w.SetGate(nil)
+		time.Sleep(time.Duration(c.Int("t", 0)) * time.Millisecond) // the partition lasts T (fetches are blocked, not at rest)
+		r.logf("partition lasted %d ms", c.Int("t", 0))
+	}
+	if r.failed == nil {
+		r.logf("final phase: heal+bounce all links, deliver everything")
+		if r.Converge() {
+			want := append([]string{}, r.Acked...)
+			sort.Strings(want)
+			ok := func() (bool, string) {
+				for i := range r.Peers {
+					var got []string
+					for _, en := range r.store(i).OpLog().GetEntries().Slice() {
+						got = append(got, en.GetHash().String())
+					}
+					sort.Strings(got)
+					if !eqStrings(got, want) {
+						return false, fmt.Sprintf("p%d holds %d entries, %d acknowledged writes exist", i, len(got), len(want))
+					}
+				}
+				return true, ""
+			}
+			good, why := ok()
+			if !good {
+				if !r.confirmRest() {
+					r.watchdog = true
+				} else if good, why = ok(); !good {
+					r.fail("not-converged-at-rest/"+famName, "after "+famName+", the final phase and at rest: "+why)
+				}
+			}
+			if r.failed == nil && !r.watchdog {
+				r.V.Count("replicas_converged", int64(len(r.Peers)))
+				r.Checks = []func(*Runner, []*Snap, string) *Violation{oracleSameSet, oracleModel}
+				r.Checkpoint("final")
+			}
+		}
+	}
+	steps = append(steps, Step{K: fmt.Sprintf("variant%d/t%d/k%d/p%d", variant, c.Int("t", 0), k, np)})
+	return r.finish(steps, nil, func() bool { return len(r.Acked) > 0 })
 }
 
 func (r *Runner) fingerprint() string {
@@ -79,6 +241,9 @@ func (r *Runner) confirmRest() bool {
 }
 
 func c02Run(c fw.Case) fw.Verdict {
+	if c.Kind == "family" {
+		return c02Family(c)
+	}
 	e := NewEnv()
 	defer e.Close()
 	rng := rand.New(rand.NewSource(c.Seed))
